@@ -19,6 +19,11 @@ func TestConformance(t *testing.T) {
 		t.Skip("VERIF_DEVIANT not set")
 	}
 	options := fstest.FSOptions{Name: "sut"}
+	if strings.HasSuffix(dev, "@prefix") {
+		// the suite's non-default configuration for file systems that report paths below some mount point
+		dev = strings.TrimSuffix(dev, "@prefix")
+		options.Constraints.AllowErrPathPrefix = true
+	}
 	switch dev {
 	case "ref:mem":
 		options.TestFS = func(tb testing.TB) fstest.SetupFS {
